@@ -16,6 +16,9 @@ sys.path.insert(0, SRC)
 sys.dont_write_bytecode = True
 
 import logging
+import warnings
+
+warnings.filterwarnings("ignore")
 
 logging.disable(logging.CRITICAL)  # the library logs warnings we provoke on purpose
 
